@@ -3,3 +3,5 @@ import RaftWal.Props.C02
 #print axioms RaftWal.C02.batch_atomic_any_tear
 #print axioms RaftWal.C02.clearStale_clean
 #print axioms RaftWal.C02.recovery_leaves_clean_region
+#print axioms RaftWal.C02.append_all_or_nothing_any_crash
+#print axioms RaftWal.C02.recovered_log_before_or_after
